@@ -43,6 +43,9 @@ int main(int argc, char** argv)
 		  f.open(File::APPEND); f << part; f.close(); if (f.size() != 400 || File(P).content().length() != 400) { printf("REPRODUCED size after append: %d, want 400\n", (int)f.size()); return 1; } }
 		{ TextFile t(P); t.open(File::WRITE); t << "0123456789\n"; t.flush(); Long mid = t.size(); t << "abcdefghijklmnopqrstuvwxyz\n" << "end"; t.close();
 		  String all = t.text(); if (mid != 11 || all != "0123456789\nabcdefghijklmnopqrstuvwxyz\nend") { printf("REPRODUCED text() after write / size() / write / close returns %d characters, want 41\n", all.length()); return 1; } }
+		// text streamed through operator<<(const char*) is data, not a printf format
+		{ TextFile t(P, File::WRITE); t << "a%%b%d%s 100%" << "\n" << "%"; t.close(); String got = TextFile(P).text(); if (got != "a%%b%d%s 100%\n%") { printf("REPRODUCED text streamed with << (const char*) containing '%%' comes back as %d bytes: %s\n", got.length(), *got); return 1; } }
+		{ ByteArray e; File f(P); { ByteArray full(300); f.put(full); f.close(); } f.put(e); f.close(); if (File(P).size() != 0) { printf("REPRODUCED put of 0 bytes over a 300-byte file leaves size() = %d\n", (int)File(P).size()); return 1; } }
 		// byte-order marks: the same text in UTF-8
 		{ const char* u8 = "h\xC3\xA9llo \xE2\x82\xAC\nline2\nx"; std::string bom8 = std::string("\xEF\xBB\xBF") + u8; put(bom8);
 		  if (TextFile(P).text() != u8) { printf("REPRODUCED text() of a UTF-8 BOM file\n"); return 1; }
